@@ -97,9 +97,9 @@ PROPS = {
         "level": "exploration",
         "interpreters": PRODUCERS,
         "rule": PROG_RULE % ("; thorough adds the stdlib corpus", "compared statically (CPython's reading of both code objects, recursively through nested code) ")
-        + " Behavioural stratum X: closed terminating programs executed before/after normalization under sys.settrace with identical prelude; stdout, exception, resulting globals and traced (name, event, line) streams compared.",
+        + " Behavioural stratum X: all ordered pairs of 35 closed, terminating statements (assignments, branches, loops with break/continue/else, try/except/finally, with, def/closure/class/generator/coroutine driven by hand, comprehensions, f-strings, chained comparison, assert, raising statements, imports, far-apart and backward lines) x {module body, function body called with the prelude values} plus each statement at optimize 1 and 2 (thorough: also all ordered triples), executed before and after normalization in fresh prelude-initialized globals under sys.settrace: stdout, exception type/message/traceback lines, address-free resulting globals/locals and the full (code name, event, line) trace stream must be identical.",
         "assumptions": TRUST + ["behavioural equivalence is decided only for the closed, terminating executable sub-grammar"],
-        "required_reach": {"quick": CODE_REACH + ["changed-but-equivalent"]},
+        "required_reach": {"quick": CODE_REACH + ["changed-but-equivalent", "behaviour-identical", "exec:raises", "exec:prints", "exec:events"]},
     },
     "C04": {
         "level": "exploration",
